@@ -33,6 +33,29 @@ Theorem C04_block_sizes_covered : forall bs, 0 < bs <= MAX_BLOCK -> bs * 255 < W
 Proof. intros bs Hb. pose proof block_cap_ok. lia. Qed.
 Print Assumptions C04_block_sizes_covered.
 
+(* the block size the code computes: whatever the floating-point square root of the file size comes out as
+   (the theorem quantifies over EVERY integer, so a wrong, saturated or NaN-derived root is included), the
+   clamped result is a legal block size: positive, within the cap, below the no-wrap bound of (1), and the
+   streaming window of (3) holds a whole block of it *)
+Theorem C04_chosen_block_size_ok : forall root,
+  let bs := calculate_block_size root in
+  MIN_BLOCK <= bs <= MAX_BLOCK /\ 0 < bs /\ bs * 255 < W32 /\ bs <= stream_chunk bs.
+Proof.
+  intros root bs. pose proof block_cap_ok as Hc. pose proof (stream_chunk_ok bs) as Hs.
+  assert (Hb : MIN_BLOCK <= bs <= MAX_BLOCK).
+  { subst bs. unfold calculate_block_size, clamp.
+    destruct (root <? MIN_BLOCK) eqn:E1; [lia|]. destruct (MAX_BLOCK <? root) eqn:E2; lia. }
+  repeat split; try lia.
+Qed.
+Print Assumptions C04_chosen_block_size_ok.
+(* ... and inside the range the clamp changes nothing (the statement is not met by a constant function) *)
+Theorem C04_clamp_identity_in_range : forall root, MIN_BLOCK <= root <= MAX_BLOCK -> calculate_block_size root = root.
+Proof. intros root H. unfold calculate_block_size, clamp.
+  destruct (root <? MIN_BLOCK) eqn:E1; [lia|]. destruct (MAX_BLOCK <? root) eqn:E2; lia. Qed.
+Print Assumptions C04_clamp_identity_in_range.
+Example ex_block_sizes : map calculate_block_size [0; 32; 1000; 10000; 316227; -5] = [512; 512; 1000; 10000; 131072; 512].
+Proof. vm_compute. reflexivity. Qed.
+
 (* (2) Copy operations only reference ranges inside old -- unconditional, for
    both generators, any strong hash. *)
 Theorem C04_copy_in_range_mem : forall SH (H : list Z -> SH) Seq bs old new ops,
